@@ -862,6 +862,8 @@ struct Gen {
     times: Vec<(u64, u64)>,
     admins: Vec<u64>,
     whale: Option<u64>,
+    /// class of the op just generated (marked together with its outcome)
+    cls: String,
 }
 
 fn parse_obs(g: &mut Gen, out: &str) {
@@ -952,7 +954,7 @@ fn fee_funds(rng: &mut Rng, fee: u128, fault: bool) -> (Vec<(u128, u128)>, &'sta
     }
 }
 
-fn gen_inst(g: &mut Gen, rng: &mut Rng, ses: &mut Session, fault: bool) -> String {
+fn gen_inst(g: &mut Gen, rng: &mut Rng, _ses: &mut Session, fault: bool) -> String {
     let kind = g.kind;
     let f = if fault { rng.range(1, 12) } else { 0 };
     let now = T0;
@@ -1057,7 +1059,7 @@ fn gen_inst(g: &mut Gen, rng: &mut Rng, ses: &mut Session, fault: bool) -> Strin
     let lists = if sm.is_empty() { "~".to_string() } else { sm.iter().map(|l| fmt_members(l)).collect::<Vec<_>>().join("|") };
     let sender = *rng.pick(&[5u64, 7]);
     let raw_n: usize = if kind.is_tiered() { sm.iter().map(|l| l.len()).sum() } else { members.len() };
-    ses.mark(format!("{}:inst:f{}:{}:lim{}:raw{}", kind.tag(), f, ftag, limit_class(limit, g.max()), cmp_class(raw_n as u64, limit)));
+    g.cls = format!("{}:inst:f{}:{}:lim{}:raw{}", kind.tag(), f, ftag, limit_class(limit, g.max()), cmp_class(raw_n as u64, limit));
     format!(
         "inst sender={sender} now={now} funds={} limit={limit} whale={} admins={} start={start} end={end} members={} stages={} smembers={} pg={}",
         fmt_pairs(&funds), fmt_opt(&whale), fmt_list(&admins), fmt_members(&members), fmt_pairs(&stages), lists, rng.range(1, 4)
@@ -1072,7 +1074,7 @@ fn cmp_class(a: u64, b: u64) -> &'static str {
     if a < b { "lt" } else if a == b { "eq" } else { "gt" }
 }
 
-fn gen_op(g: &mut Gen, rng: &mut Rng, ses: &mut Session) -> String {
+fn gen_op(g: &mut Gen, rng: &mut Rng, _ses: &mut Session) -> String {
     let kind = g.kind;
     let pg = rng.range(1, 4);
     let fault = rng.chance(3, 10);
@@ -1122,7 +1124,7 @@ fn gen_op(g: &mut Gen, rng: &mut Rng, ses: &mut Session) -> String {
         }
         let existing = ms.iter().filter(|m| cur.iter().any(|c| c.0 == m.0)).count();
         let distinct_new: BTreeSet<u64> = ms.iter().map(|m| m.0).filter(|a| !cur.iter().any(|c| c.0 == *a)).collect();
-        ses.mark(format!("{}:add:new{}:room{}:existing{}:sender{}:tip{}", kind.tag(), cmp_class(distinct_new.len() as u64, room), room.min(2), existing.min(2), sender, tip.min(1)));
+        g.cls = format!("{}:add:new{}:room{}:existing{}:sender{}:tip{}", kind.tag(), cmp_class(distinct_new.len() as u64, room), room.min(2), existing.min(2), sender, tip.min(1));
         format!("add sender={sender} now={now} tip={tip} stage={stage} members={} pg={pg}", fmt_members(&ms))
     } else if roll < 58 {
         // remove
@@ -1143,7 +1145,7 @@ fn gen_op(g: &mut Gen, rng: &mut Rng, ses: &mut Session) -> String {
         }
         if xs.is_empty() { tag = "empty"; }
         let started = if tiered { g.times.get(stage as usize).map(|t| now >= t.0).unwrap_or(false) } else { now >= g.start };
-        ses.mark(format!("{}:rm:{}:started{}:sender{}", kind.tag(), tag, started, sender));
+        g.cls = format!("{}:rm:{}:started{}:sender{}", kind.tag(), tag, started, sender);
         format!("rm sender={sender} now={now} tip={tip} stage={stage} addrs={} pg={pg}", fmt_list(&xs))
     } else if roll < 74 {
         // increase limit — anybody may call it
@@ -1152,7 +1154,7 @@ fn gen_op(g: &mut Gen, rng: &mut Rng, ses: &mut Session) -> String {
         let fee = if lim > g.limit { fee_for_limit(lim) - fee_for_limit(g.limit) } else { 0 };
         let ff = fault && rng.chance(1, 2);
         let (funds, ftag) = fee_funds(rng, fee, ff);
-        ses.mark(format!("{}:inc:{}->{}:fee{}:{}", kind.tag(), limit_class(g.limit, g.max()), limit_class(lim, g.max()), (fee / HUNDRED_STARS).min(3), ftag));
+        g.cls = format!("{}:inc:{}->{}:fee{}:{}", kind.tag(), limit_class(g.limit, g.max()), limit_class(lim, g.max()), (fee / HUNDRED_STARS).min(3), ftag);
         format!("inc sender={sender} now={now} funds={} limit={lim} pg={pg}", fmt_pairs(&funds))
     } else if roll < 84 && (tiered || rng.chance(1, 6)) {
         // add stage (flat kinds: the message does not exist)
@@ -1172,17 +1174,17 @@ fn gen_op(g: &mut Gen, rng: &mut Rng, ses: &mut Session) -> String {
         let n = match rng.below(4) { 0 => room as usize, 1 => room as usize + 1, _ => rng.range(0, 3) as usize }.min(g.valid.len());
         let (d2, i2) = (rng.chance(1, 3), fault && rng.chance(1, 8));
         let ms = g.members(rng, n, d2, i2);
-        ses.mark(format!("{}:addstage:{}:ns{}:n{}:sender{}", kind.tag(), tag, ns, cmp_class(n as u64, room), sender));
+        g.cls = format!("{}:addstage:{}:ns{}:n{}:sender{}", kind.tag(), tag, ns, cmp_class(n as u64, room), sender);
         format!("addstage sender={sender} now={now2} tip={tip} start={start} end={end} members={} pg={pg}", fmt_members(&ms))
     } else if roll < 90 && (tiered || rng.chance(1, 6)) {
         let started = g.times.get(stage as usize).map(|t| now >= t.0).unwrap_or(false);
-        ses.mark(format!("{}:rmstage:stage{}of{}:started{}:sender{}", kind.tag(), stage, ns, started, sender));
+        g.cls = format!("{}:rmstage:stage{}of{}:started{}:sender{}", kind.tag(), stage, ns, started, sender);
         format!("rmstage sender={sender} now={now} tip={tip} stage={stage} pg={pg}")
     } else if roll < 95 {
         // messages that only touch admins / times: the model takes the read-back values as environment
         let what: Vec<&str> = if tiered { vec!["upd_stage", "upd_admins", "freeze"] } else { vec!["upd_start", "upd_end", "upd_admins", "freeze", "upd_pal"] };
         let w = *rng.pick(&what);
-        ses.mark(format!("{}:env:{}", kind.tag(), w));
+        g.cls = format!("{}:env:{}", kind.tag(), w);
         match w {
             "upd_start" => format!("env what=upd_start sender={sender} now={now} t={} pg={pg}", T0 + rng.range(500, 1500) * SEC),
             "upd_end" => format!("env what=upd_end sender={sender} now={now} t={} pg={pg}", T0 + rng.range(900, 6000) * SEC),
@@ -1197,12 +1199,12 @@ fn gen_op(g: &mut Gen, rng: &mut Rng, ses: &mut Session) -> String {
             }
         }
     } else if roll < 98 {
-        ses.mark(format!("{}:q", kind.tag()));
+        g.cls = format!("{}:q", kind.tag());
         format!("q now={now} pg={pg}")
     } else {
         let after = if rng.chance(1, 2) { None } else { Some(*rng.pick(&g.uni)) };
         let limit = match rng.below(5) { 0 => None, 1 => Some(0), 2 => Some(1000), _ => Some(rng.range(1, 5)) };
-        ses.mark(format!("{}:page:after{}:limit{}", kind.tag(), after.map(|a| if a >= 90000 { "invalid" } else { "some" }).unwrap_or("none"), limit.map(|l| l.min(6).to_string()).unwrap_or("none".into())));
+        g.cls = format!("{}:page:after{}:limit{}", kind.tag(), after.map(|a| if a >= 90000 { "invalid" } else { "some" }).unwrap_or("none"), limit.map(|l| l.min(6).to_string()).unwrap_or("none".into()));
         format!("page stage={stage} after={} limit={}", fmt_opt(&after), fmt_opt(&limit))
     }
 }
@@ -1221,7 +1223,7 @@ fn absorb_env(g: &mut Gen, sut: &S) {
 
 fn run_trace(ses: &mut Session, sut: &mut S, kind: Kind, rng: &mut Rng, n_ops: u64) {
     let uni: Vec<u64> = vec![10, 11, 12, 13, 14, 15, 16, 17, 90001];
-    let mut g = Gen { kind, uni: uni.clone(), valid: uni.iter().copied().filter(|a| *a < 90000).collect(), exists: false, num: 0, limit: 0, maps: vec![], start: 0, times: vec![], admins: vec![], whale: None };
+    let mut g = Gen { kind, uni: uni.clone(), valid: uni.iter().copied().filter(|a| *a < 90000).collect(), exists: false, num: 0, limit: 0, maps: vec![], start: 0, times: vec![], admins: vec![], whale: None, cls: String::new() };
     ses.begin_case(sut, &format!("case kind={} uni={}", kind.tag(), fmt_list(&uni)));
     // an op before any instantiate
     if rng.chance(1, 10) {
@@ -1232,6 +1234,7 @@ fn run_trace(ses: &mut Session, sut: &mut S, kind: Kind, rng: &mut Rng, n_ops: u
         let fault = rng.chance(3, 10);
         let line = gen_inst(&mut g, rng, ses, fault);
         let out = ses.step(sut, &line);
+        ses.mark(format!("{}:{}", g.cls, out.split(' ').next().unwrap_or("?")));
         parse_obs(&mut g, &out);
         ses.count(&format!("inst:{}:{}", kind.tag(), if g.exists { "ok" } else { "err" }));
         tries += 1;
@@ -1241,6 +1244,7 @@ fn run_trace(ses: &mut Session, sut: &mut S, kind: Kind, rng: &mut Rng, n_ops: u
         for _ in 0..n_ops {
             let line = gen_op(&mut g, rng, ses);
             let out = ses.step(sut, &line);
+            ses.mark(format!("{}:{}", g.cls, out.split(' ').next().unwrap_or("?")));
             if !line.starts_with("page") {
                 parse_obs(&mut g, &out);
             }
@@ -1338,6 +1342,73 @@ fn scripted(ses: &mut Session, sut: &mut S) {
     ses.end_case();
 }
 
+/// Exhaustive small scope (model validation, not the proof): EVERY sequence of `depth` ops over a small alphabet,
+/// limit 2, three valid addresses, for the four mutable kinds.
+fn exhaustive(ses: &mut Session, sut: &mut S, depth: usize) {
+    let uni = "10,11,12,90001";
+    let st = T0 + 1_000 * SEC;
+    let en = T0 + 5_000 * SEC;
+    let now = T0 + SEC;
+    let mut total = 0u64;
+    for kind in [Kind::Plain, Kind::Flex, Kind::Tiered, Kind::TFlex] {
+        let k = kind.tag();
+        let inst = format!(
+            "inst sender=5 now={T0} funds=0:100000000 limit=2 whale=- admins=5 start={st} end={en} members=10:1 stages={st}:{} smembers=10:1 pg=1",
+            st + 500 * SEC
+        );
+        let mut alpha: Vec<String> = vec![
+            format!("add sender=5 now={now} tip=0 stage=0 members=10:1 pg=1"),
+            format!("add sender=5 now={now} tip=0 stage=0 members=11:1 pg=2"),
+            format!("add sender=5 now={now} tip=0 stage=0 members=12:2,10:3 pg=1"),
+            format!("add sender=5 now={now} tip=0 stage=0 members=11:1,12:1 pg=1"),
+            format!("rm sender=5 now={now} tip=0 stage=0 addrs=10 pg=1"),
+            format!("rm sender=5 now={now} tip=0 stage=0 addrs=11 pg=1"),
+            format!("rm sender=5 now={now} tip=0 stage=0 addrs=10,12 pg=1"),
+            format!("inc sender=7 now={now} funds=- limit=3 pg=1"),
+        ];
+        if kind.is_tiered() {
+            alpha.push(format!("addstage sender=5 now={now} tip=0 start={} end={} members=11:1,10:1,11:2 pg=1", st + 500 * SEC, st + 900 * SEC));
+            alpha.push(format!("add sender=5 now={now} tip=0 stage=1 members=12:1 pg=1"));
+            alpha.push(format!("rm sender=5 now={now} tip=0 stage=1 addrs=10 pg=1"));
+            alpha.push(format!("rmstage sender=5 now={now} tip=0 stage=1 pg=1"));
+            alpha.push(format!("rmstage sender=5 now={now} tip=0 stage=0 pg=1"));
+        }
+        let n = alpha.len();
+        let mut idx = vec![0usize; depth];
+        loop {
+            ses.begin_case(sut, &format!("case kind={k} uni={uni} exhaustive={}", idx.iter().map(|i| i.to_string()).collect::<Vec<_>>().join(".")));
+            ses.step(sut, &inst);
+            for (pos, i) in idx.iter().enumerate() {
+                let out = ses.step(sut, &alpha[*i]);
+                ses.mark(format!("{k}:exh:pos{pos}:op{i}:{}", out.split(' ').next().unwrap_or("?")));
+            }
+            ses.end_case();
+            total += 1;
+            // next index vector
+            let mut p = depth;
+            loop {
+                if p == 0 {
+                    break;
+                }
+                p -= 1;
+                idx[p] += 1;
+                if idx[p] < n {
+                    break;
+                }
+                idx[p] = 0;
+                if p == 0 {
+                    p = usize::MAX;
+                    break;
+                }
+            }
+            if p == usize::MAX || depth == 0 {
+                break;
+            }
+        }
+    }
+    ses.note(format!("exhaustive small scope: all {total} op sequences of length {depth} over an alphabet of 8 (flat) / 13 (tiered) ops, limit 2, addresses 10..12 — model validation only"));
+}
+
 fn main() {
     let mut ses = Session::new("C11");
     let mut sut = S::new();
@@ -1345,8 +1416,10 @@ fn main() {
         ses.finish(&mut sut);
     }
     scripted(&mut ses, &mut sut);
+    let depth = ses.scale(3, 4) as usize;
+    exhaustive(&mut ses, &mut sut, depth.min(4));
     let mut rng = ses.rng.fork();
-    let traces = ses.scale(60, 1500);
+    let traces = ses.scale(400, 8000);
     let n_ops = ses.scale(24, 30);
     for i in 0..traces {
         for kind in [Kind::Plain, Kind::Flex, Kind::Tiered, Kind::TFlex, Kind::Immutable] {
